@@ -207,6 +207,9 @@ def gen_case(r, pid=None):
                 auto_selector=r.choice([None, None, None, "scale_left_2018", "m", ""]),
                 robot_split=(r.randrange(0, ncomp + 1) if ncomp and r.random() < 0.3 else 0),
                 ticks=ticks, raises=[], writes={}, fbval={}, comp_root=comp_root, fb_anon=r.random() < 0.3)
+    # in every other robot some of the unmarked attributes are INJECTED variables (annotated `a1: int`, value from the robot's
+    # `c00_a1`) instead of plain class attributes: user code reassigns them like any other attribute
+    case["inj_attrs"] = (ncomp + nattr + len(ticks)) % 2 == 0
     # some control words arrive while the previous pass is still running (not while the loop sleeps): they count from the
     # top of the next pass all the same
     if r.random() < 0.35:
